@@ -203,8 +203,6 @@ async def do_op(sim, request):
             entry = pool[op[1] % len(pool)]
             text = entry["text"]
             which = "cond" if kind == "P" else "ahb"
-            if which != entry["grammar"]:
-                continue
             note_reuse(text)
             parse = parse_condition_expression_to_tree if kind == "P" else (
                 parse_ahb_expression_to_single_requirement_indicator_expressions
@@ -406,6 +404,7 @@ def generate(seed, tier="quick"):
     n_clients = rnd.choice([2, 3, 4, 6] if big else [1, 1, 2, 2, 3, 4])
     total_ops = rnd.randint(30, 120) if big else rnd.randint(3, 40)
     flood = rnd.random() < (0.04 if tier == "quick" else 0.06)
+    cross_rnd = rng(seed, "c11-cross")  # (a stream of its own: the other draws stay what they were)
     requests = []
     for index in range(n_clients):
         ops = []
@@ -414,6 +413,10 @@ def generate(seed, tier="quick"):
             target = rnd.randrange(len(pool))
             if roll < 0.34:
                 ops.append(["P" if pool[target]["grammar"] == "cond" else "A", target])
+                if cross_rnd.random() < 0.1:
+                    # a caller hands the string to the *other* parser (it usually is a syntax error there - and must
+                    # stay one whatever the sibling parser has been asked before)
+                    ops[-1][0] = "A" if ops[-1][0] == "P" else "P"
                 if rnd.random() < 0.15:
                     ops[-1].append("kw")
             elif roll < 0.44:
@@ -496,6 +499,14 @@ def execute(scenario):
     parse_references = {
         f"{entry['grammar']}|{entry['text']}": pristine(_parse_alone, entry["grammar"], entry["text"]) for entry in pool
     }
+    crossed = []  # strings that are handed to the other grammar's parser somewhere in the history
+    for request in scenario["requests"]:
+        for op in request["ops"]:
+            if op[0] in ("P", "A"):
+                entry, which = pool[op[1] % len(pool)], "cond" if op[0] == "P" else "ahb"
+                if which != entry["grammar"] and f"{which}|{entry['text']}" not in parse_references:
+                    parse_references[f"{which}|{entry['text']}"] = pristine(_parse_alone, which, entry["text"])
+                    crossed.append({"grammar": which, "text": entry["text"]})
     if any(op[0] in ("P", "A") and len(op) > 2 and op[2] == "kw" for r in scenario["requests"] for op in r["ops"]):
         for grammar in ("cond", "ahb"):
             parse_references[f"kw|{grammar}"] = pristine(_keyword_call_offered, grammar)
@@ -524,7 +535,7 @@ def execute(scenario):
     from ahbicht.expressions.ahb_expression_parser import parse_ahb_expression_to_single_requirement_indicator_expressions
     from ahbicht.expressions.condition_expression_parser import parse_condition_expression_to_tree
 
-    for entry in pool:
+    for entry in pool + crossed:
         parse = parse_condition_expression_to_tree if entry["grammar"] == "cond" else (
             parse_ahb_expression_to_single_requirement_indicator_expressions
         )
